@@ -38,15 +38,28 @@ func ParseGoVersion(version string) (GoVersion, error) {
 	if len(parts) != 2 {
 		return result, fmt.Errorf("invalid Go version format: %s", version)
 	}
-	major, err := strconv.Atoi(parts[0])
+	major, err := parseVersionPart(parts[0])
 	if err != nil {
 		return result, fmt.Errorf("invalid major version part: %s: %w", parts[0], err)
 	}
-	minor, err := strconv.Atoi(parts[1])
+	if major < 1 {
+		// Major 0 is how "no version given" is represented.
+		return result, fmt.Errorf("invalid major version part: %s", parts[0])
+	}
+	minor, err := parseVersionPart(parts[1])
 	if err != nil {
 		return result, fmt.Errorf("invalid minor version part: %s: %w", parts[1], err)
 	}
 	result.Major = major
 	result.Minor = minor
 	return result, nil
+}
+
+// parseVersionPart parses an unsigned decimal number: unlike strconv.Atoi
+// it does not accept a sign, "1.+17" and "1.-5" are not Go versions.
+func parseVersionPart(s string) (int, error) {
+	if strings.HasPrefix(s, "+") || strings.HasPrefix(s, "-") {
+		return 0, fmt.Errorf("unexpected sign")
+	}
+	return strconv.Atoi(s)
 }
